@@ -158,15 +158,56 @@ pub fn apply_mut(s: &str, m: Mut) -> String {
     }
 }
 
+/// "Never hangs": every call of a reader is entered into a table (thread, what, text, since when);
+/// a watcher thread looks at the table once a second and, if one call has been running for more
+/// than HANG_LIMIT, writes the input as a replay file, prints the VIOLATION line and ends the
+/// process with exit code 1 (a thread stuck in foreign code cannot be stopped, only left behind).
+/// The readers answer in microseconds even for megabyte inputs; the limit is generous.
+const HANG_LIMIT: std::time::Duration = std::time::Duration::from_secs(60);
+
+struct Running {
+    what: &'static str,
+    text: String,
+    since: std::time::Instant,
+}
+
+fn hang_table() -> &'static std::sync::Mutex<std::collections::HashMap<std::thread::ThreadId, Running>> {
+    static T: std::sync::OnceLock<std::sync::Mutex<std::collections::HashMap<std::thread::ThreadId, Running>>> = std::sync::OnceLock::new();
+    T.get_or_init(|| {
+        std::thread::spawn(|| loop {
+            std::thread::sleep(std::time::Duration::from_secs(1));
+            let stuck: Option<(&'static str, String)> = {
+                let t = hang_table().lock().unwrap_or_else(|e| e.into_inner());
+                t.values().find(|r| r.since.elapsed() > HANG_LIMIT).map(|r| (r.what, r.text.clone()))
+            };
+            if let Some((what, text)) = stuck {
+                let check = if what == "FEN" { "fen_parser_total" } else { "san_parser_total" };
+                let case = if what == "FEN" { json!({"Unicode": text}) } else { json!({"Unicode": text}) };
+                let message = format!("reading {} as {} has not returned for {:?}: the reader hangs", show(&text), if what == "FEN" { "FEN" } else { "algebraic move text" }, HANG_LIMIT);
+                crate::runner::emergency_violation("C14", check, case, &message);
+            }
+        });
+        std::sync::Mutex::new(std::collections::HashMap::new())
+    })
+}
+
+fn watched<T>(what: &'static str, s: &str, f: impl FnOnce() -> T) -> T {
+    let id = std::thread::current().id();
+    hang_table().lock().unwrap_or_else(|e| e.into_inner()).insert(id, Running { what, text: s.to_string(), since: std::time::Instant::now() });
+    let r = f();
+    hang_table().lock().unwrap_or_else(|e| e.into_inner()).remove(&id);
+    r
+}
+
 fn parse_fen(s: &str) -> Result<bool, String> {
-    match std::panic::catch_unwind(|| try_from_notation::<State, Fen>(s).is_ok()) {
+    match watched("FEN", s, || std::panic::catch_unwind(|| try_from_notation::<State, Fen>(s).is_ok())) {
         Ok(ok) => Ok(ok),
         Err(p) => Err(crate::runner::panic_message(&p)),
     }
 }
 
 fn parse_san(s: &str) -> Result<bool, String> {
-    match std::panic::catch_unwind(|| try_from_notation::<MoveQuery, San>(s).is_ok()) {
+    match watched("SAN", s, || std::panic::catch_unwind(|| try_from_notation::<MoveQuery, San>(s).is_ok())) {
         Ok(ok) => Ok(ok),
         Err(p) => Err(crate::runner::panic_message(&p)),
     }
